@@ -52,10 +52,10 @@ class _IntervalComputer(Generic[MODEL], MatcherStdTypeVisitor[MODEL, IntInterval
         return self._interval_adaption(operand.accept(self._negation_evaluator))
 
     def visit_conjunction(self, operands: Sequence[MatcherWTrace[MODEL]]) -> IntIntervalWInversion:
-        return self._bin_op(combinations.intersection, operands)
+        return self._bin_op(combinations.intersection, combinations.union, operands)
 
     def visit_disjunction(self, operands: Sequence[MatcherWTrace[MODEL]]) -> IntIntervalWInversion:
-        return self._bin_op(combinations.union, operands)
+        return self._bin_op(combinations.union, combinations.intersection, operands)
 
     def visit_non_standard(self, matcher: MatcherWTrace[MODEL]) -> IntIntervalWInversion:
         if isinstance(matcher, WithIntInterval):
@@ -65,12 +65,21 @@ class _IntervalComputer(Generic[MODEL], MatcherStdTypeVisitor[MODEL, IntInterval
 
     def _bin_op(self,
                 operator: Callable[[IntIntervalWInversion, IntIntervalWInversion], IntIntervalWInversion],
+                inversion_operator: Callable[[IntIntervalWInversion, IntIntervalWInversion], IntIntervalWInversion],
                 operands: Sequence[MatcherWTrace],
                 ) -> IntIntervalWInversion:
-        unadapted = functools.reduce(operator, [operand.accept(self) for operand in operands])
+        """
+        :param inversion_operator: The dual of operator (De Morgan): combines the inversions of the operands.
+        The inversion of the combination cannot be derived from the combination itself,
+        since the combination is just an interval that covers the operands.
+        """
+        intervals_of_operands = [operand.accept(self) for operand in operands]
+        unadapted = functools.reduce(operator, intervals_of_operands)
+        unadapted_inversion = functools.reduce(inversion_operator,
+                                               [interval.inversion for interval in intervals_of_operands])
         return intervals.WithCustomInversion(
             unadapted,
-            self._interval_adaption(unadapted.inversion),
+            self._interval_adaption(unadapted_inversion),
         )
 
 
